@@ -75,8 +75,9 @@ PROPS = {
                        "tied by correspondence only); crash points inside a single file operation are represented by (j, n) in the model "
                        "and sampled at step boundaries + log-tail cuts on the implementation; page-granular power loss is C12; damaged "
                        "logs are C13."),
-        "lean": ["Pdb.Props.C02", "Pdb.Proofs.Order"],
-        "harness": [{"cmd": "p1", "quick": 250, "thorough": 15000}],
+        "lean": ["Pdb.Props.C02", "Pdb.Props.C02x", "Pdb.Proofs.Order"],
+        "harness": [{"cmd": "p1", "quick": 250, "thorough": 15000},
+                    {"cmd": "c02x", "quick": 450, "thorough": 8000, "model": False}],
         "rule": P1_RULE,
         "assumptions": [A_HASH, A_COMPRESS, P2_GAP, "crash instants on the implementation: step boundaries of the stepping API with the unsynced log tail cut at a seeded length"],
     },
@@ -179,7 +180,7 @@ PROPS = {
                        "histories on the model (addresses, filled, free-list length, chain digests via hooks) and by an independent byte oracle."),
         "level_note": ("Trusted: Lean kernel; A-compress; the model restructures overwrite_chain into phases (tied by the c06 t correspondence); "
                        "db_version > 6; claimed entries (multitree) are C10; hooks of fixes/hook-c06.diff."),
-        "lean": ["Pdb.Props.C06"],
+        "lean": ["Pdb.Props.C06", "Pdb.Props.C14Dump"],
         "harness": [{"cmd": "c06", "quick": 100, "thorough": 300, "max_search": 3000}],
         "rule": ("one column per case (hash plain / hash rc / btree plain / btree rc; uniform or hashed keys; compression none/lz4/snappy; threshold "
                  "0/default/max); lengths 0, 1, boundary-1/boundary/boundary+1 of 3 (thorough 15) sampled tiers for the header variant in use, the "
@@ -396,10 +397,12 @@ PROPS = {
         "level_note": ("Trusted: Lean kernel; the abstraction of the backend cursor (BTreeIterState node stack) as a position in the sorted "
                        "backend list and 'equal record id => equal backend' are tied by correspondence only (model driven by the same commits / "
                        "stage steps / iterator calls as the real Db, also the unpatched model against the unpatched crate: 0 disagreements); "
-                       "tree update: one change per descent in the model vs the batching loop of Node::change, values instead of value-table "
-                       "addresses (tied by equality of tree shapes with the dumped real tree after every processed commit); value storage "
-                       "below the tree is C06."),
-        "lean": ["Pdb.Props.C04"],
+                       "the literal BTreeIterState stack cursor is proved to refine that abstract cursor (C04b_cursor_refines / _total / _next_backend), "
+                       "the batching loop of Node::change is proved equal to one descent per change (C04b_batch_refines, C04b_batch_refines_tx) and the "
+                       "address indirection is proved leak-free (C04b_address_indirection / _release / _no_leak); the batched model's tree is compared "
+                       "node by node (separator hashes) with the dumped real tree after every processed commit (c04b tree), and the Lean checker "
+                       "checkTree (sound for TreeInv: C14Dump_tree_sound) is evaluated on every dump; value storage below the tree is C06."),
+        "lean": ["Pdb.Props.C04", "Pdb.Props.C04b", "Pdb.Props.C14Dump"],
         "harness": [{"cmd": "c04", "quick": 150, "thorough": 1500, "max_search": 3000}],
         "rule": ("one SplitMix64 state per case: btree column (plain / lz4), pool of 5..400 (thorough ..1200) distinct keys of length 0..300 "
                  "(emphasis 253..257, prefix chains, shared long stems; thorough: up to two keys > 64 KiB), 50..150 (thorough 80..260) actions: "
@@ -411,7 +414,7 @@ PROPS = {
                  "non-trivial = answers came from two different layers (commit overlay / log overlay / files) or the tree reached depth >= 1"),
         "assumptions": [A_COMPRESS,
                         "backend cursor abstraction and record-id/backend coupling of Pdb/Model/BTreeIter.lean (validated by the runs)",
-                        "batching loop of Node::change equals one descent per change (validated by tree-shape equality in the runs)"],
+                        "presence test of the address model is lookup in toList (stated simplification of C04b_address_indirection)"],
         "trusted": ["hook btree::verif::{verif_dump, separator_codec} / verif::btree_dump (cfg pdb_verif, read-only)"],
     },
     "C15": {
@@ -486,7 +489,7 @@ PROPS = {
         "trusted": ["hook Db::verif_dump / verif_reindex_state (cfg pdb_verif)"],
     },
     "C14": {
-        "lean": ["Pdb.Props.C14"],
+        "lean": ["Pdb.Props.C14", "Pdb.Props.C14Dump"],
         "harness": [{"cmd": "c09", "quick": 48, "thorough": 600, "timeout": 3000}],
         "level_text": ("Lean theorems: IndexInv / SlotInvAbs / NoLeak preserved over all histories (C14_index_inv_preserved, C14_no_leak), "
                        "C14_no_misattribution, C14_remove_returns_slot, C14_fill_mark_moves_only_when_no_free_slot, C14_iter_values_exact on the abstract "
@@ -494,8 +497,11 @@ PROPS = {
                        "filled - 1) is C06's SlotInv, the btree invariant C04's TreeInv, the reference-count invariant C10's RcInv. Tied to the code by "
                        "structural checks on read-only dumps of the real index tables, value tables and free lists after every drain / reopen / recovery, "
                        "steady insert/remove workloads, and value iteration."),
-        "level_note": ("Trusted: Lean kernel; hook Db::verif_dump; the structural predicates evaluated on dumps are the harness's Rust restatement of the "
-                       "invariants (the executable Bool versions in Lean are not proved sound against the Prop versions)."),
+        "level_note": ("Trusted: Lean kernel; hooks Db::verif_dump / verif_table_entry (raw slot bytes, index entries, free-list head, header). The "
+                       "invariants are evaluated on every dump by the LEAN checker (driver command t2: checkSlots / checkIndex / checkTree), proved sound "
+                       "against the Prop invariants of the theorems (C14Dump_slots_sound, C14Dump_index_sound, C14Dump_tree_sound, ...); the harness's Rust "
+                       "restatement runs in addition as an independent oracle. Not covered by the dump checker: RcInv of multitree ref-count tables "
+                       "(no dump hook for child lists; covered by the c10 correspondence instead); dumps above 200 KB text are skipped and counted."),
         "rule": "as C09 plus multipart values and 400-cycle steady workloads; structure checked on hook dumps after every drain / reopen / recovery",
         "assumptions": ["as C09; byte-level SlotInv is C06, TreeInv C04, RcInv C10"],
         "trusted": ["hook Db::verif_dump (cfg pdb_verif)"],
